@@ -134,13 +134,14 @@ theorem decodeTop_eq (lookup : Bytes → Option Nat) (name : String) (ty : Ty) (
        | .unknownCodec _ => .ok (.unknownData bs)
        | .short => .error (.decode "short")
        | .badUtf8 => .error (.decode "utf8")
-       | .badIndex => .error (.decode "index")) := by
+       | .badIndex => .error (.decode "index")
+       | .badArity => .error .unsupported) := by
   unfold tyOfName at hty
   unfold decodeTop
   split at hty
   · rename_i tr hp
     simp only [hp, hty]
-    rcases decode lookup ty bs with ⟨v, r⟩ | _ | _ | _ | _ <;> rfl
+    rcases decode lookup ty bs with ⟨v, r⟩ | _ | _ | _ | _ | _ <;> rfl
   · cases hty
 
 theorem decodeTop_ok (lookup : Bytes → Option Nat) (name : String) (ty : Ty) (v : Val)
